@@ -210,6 +210,74 @@ func run(seq []opT) (string, string) {
 	return "", ""
 }
 
+// ---- part a2: blacklist configurations -----------------------------------------------------------------
+
+// partA2: every blacklist spelling of an IP (canonical, upper case, expanded, IPv4-mapped) must block that IP at
+// every interception point, permanently (before and after any time and sweep), and nothing else.
+func partA2(r *vlib.Run) {
+	type entry struct{ spelled, peer string }
+	entries := []entry{
+		{"10.9.9.9", "/ip4/10.9.9.9/tcp/4001"},
+		{"2001:db8::1", "/ip6/2001:db8::1/tcp/4001"},
+		{"2001:DB8::1", "/ip6/2001:db8::1/tcp/4001"},
+		{"2001:0db8:0:0:0:0:0:1", "/ip6/2001:db8::1/tcp/4001"},
+		{"2001:0db8:0000:0000:0000:0000:0000:0001", "/ip6/2001:db8::1/tcp/4001"},
+		{"fd00:0:0:0:0:0:0:7", "/ip6/fd00::7/tcp/4001"},
+		{"::ffff:10.9.8.7", "/ip4/10.9.8.7/tcp/4001"},
+		{"::1", "/ip6/::1/tcp/4001"},
+		{"0:0:0:0:0:0:0:1", "/ip6/::1/tcp/4001"},
+	}
+	other, _ := ma.NewMultiaddr("/ip4/10.1.1.1/tcp/4001")
+	pid := remoteIDs[0]
+	seen := map[string]bool{}
+	configs := [][]int{}
+	for i := range entries {
+		configs = append(configs, []int{i})
+		for j := i + 1; j < len(entries); j++ {
+			configs = append(configs, []int{i, j})
+		}
+	}
+	for _, cfgI := range configs {
+		bl := []string{}
+		for _, i := range cfgI {
+			bl = append(bl, entries[i].spelled)
+		}
+		vclock.Set(time.Unix(1_700_000_000, 0))
+		vclock.ResetTickers()
+		g, err := p2p.VerifNewGater(nolog.L{}, expiry, interval, bl)
+		if err != nil {
+			r.Violation("blacklist-config-rejected", fmt.Sprintf("blacklist %v: %v", bl, err), caseT{bl, "blacklist"})
+			continue
+		}
+		for round := 0; round < 2; round++ {
+			for _, i := range cfgI {
+				a, err := ma.NewMultiaddr(entries[i].peer)
+				if err != nil {
+					panic(err)
+				}
+				if g.Allowed(a) || g.InterceptAddrDial(pid, a) || g.InterceptAccept(conn{a}) || g.InterceptSecured(network.DirInbound, pid, conn{a}) {
+					key := "blacklisted-ip-accepted"
+					if !seen[key] {
+						seen[key] = true
+						r.Violation(key, fmt.Sprintf("blacklist %v (round %d): a connection involving %s is accepted at some interception point", bl, round, entries[i].peer), caseT{bl, "blacklist"})
+					}
+				}
+			}
+			if !g.Allowed(other) || !g.InterceptAccept(conn{other}) {
+				if !seen["unlisted-ip-refused"] {
+					seen["unlisted-ip-refused"] = true
+					r.Violation("unlisted-ip-refused", fmt.Sprintf("blacklist %v: an IP that is not listed is refused", bl), caseT{bl, "blacklist"})
+				}
+			}
+			vclock.Set(vclock.Now().Add(expiry + time.Hour))
+			vclock.Tick()
+			r.Add("transitions", 2)
+		}
+		g.Stop()
+		r.Add("blacklist_configurations", 1)
+	}
+}
+
 // ---- part b: traffic -----------------------------------------------------------------------------
 
 type sink struct{ network.Stream }
@@ -335,6 +403,10 @@ func partB(r *vlib.Run) {
 			panic(err)
 		}
 		_ = mp.RegisterRPCHandler("echo", func(w p2p.ResponseWriter, req *p2p.Request) { w.Write(req.Data) })
+		// procedures that see no traffic: the periodic reset has to reach every counter whatever the others hold
+		for _, idle := range []string{"idle-a", "idle-b", "idle-c", "idle-d", "idle-e", "idle-f"} {
+			_ = mp.RegisterRPCHandler(idle, func(w p2p.ResponseWriter, req *p2p.Request) {})
+		}
 		mp.VerifStart()
 		mp.VerifSetRateLimit("echo", 2, 10)
 		stop := mp.VerifStartRateLimiter()
@@ -467,12 +539,13 @@ func main() {
 		}
 	})
 	if r.Only == "" && !inWorker() {
+		partA2(r)
 		partB(r)
 		partC(r)
 	}
 	r.Set("traces_validated_against_impl", r.Get("states")+r.Get("traffic_sequences")+r.Get("loopback_scenarios"))
 	r.Set("depth", depth)
-	r.Set("explanation", "(a) every sequence of <=depth operations over 9 penalties (3 IPs incl. IPv6 x 10/50/100), 4 time advances around the expiry and the sweep interval, and the sweep tick on the real connection gater, all interception points compared with the score model after every step; (b) every traffic sequence of <=5 messages over {well-formed, malformed envelope, unknown procedure, end of rate interval} from two peers through the real onRequest and rate limiter (limit 2 per interval, penalty 10), disconnect calls recorded; (c) 11 loopback scenarios between two real libp2p hosts: each misbehaviour kind ends in disconnect + refusal in both directions until expiry, legal traffic and partial penalties do not, blacklisted IP refused permanently")
+	r.Set("explanation", "(a) every sequence of <=depth operations over 9 penalties (3 IPs incl. IPv6 x 10/50/100), 4 time advances around the expiry and the sweep interval, and the sweep tick on the real connection gater, all interception points compared with the score model after every step; (b) every traffic sequence of <=5 messages over {well-formed, malformed envelope, unknown procedure, end of rate interval} from two peers through the real onRequest and rate limiter (limit 2 per interval, penalty 10; six further procedures stay idle), disconnect calls recorded; (a2) every blacklist of one or two entries over 9 spellings (canonical, upper case, expanded, IPv4-mapped) blocks exactly the listed IPs at every interception point, before and after expiry time and sweep; (c) 11 loopback scenarios between two real libp2p hosts: each misbehaviour kind ends in disconnect + refusal in both directions until expiry, legal traffic and partial penalties do not, blacklisted IP refused permanently")
 	r.Sample(caseT{[]string{"penalty(::1,50)", "penalty(::1,50)", "advance(1001s)", "sweep"}, "gater"})
 	r.Finish()
 }
